@@ -17,6 +17,18 @@ from ..kernel import Sim, FakeTime, Deadlock, StepCap, HarnessError
 
 FLAT_VENDORS = ("juniper", "ribbon", "nokia", "routeros")
 
+# concrete hardware models per corpus vendor key: rulebook templates and logic functions branch on the model
+MODELS = {
+    "huawei": ["Huawei", "Huawei CE6870", "Huawei NE40E", "Huawei S5700", "Huawei Quidway S2326", "Huawei CE12800"],
+    "huawei ce": ["Huawei CE0000", "Huawei CE6870"],
+    "cisco": ["Cisco Catalyst", "Cisco Catalyst 3750", "Cisco"],
+    "nexus": ["Cisco Nexus", "Cisco Nexus 3172"],
+    "asr": ["Cisco ASR", "Cisco ASR 9000"],
+    "arista": ["Arista", "Arista DCS-7050"],
+    "juniper": ["Juniper", "Juniper MX480", "Juniper QFX5100"],
+    "aruba": ["Aruba", "Aruba AP-325"],
+}
+
 
 class FilesMP(FakeMP):
     def describe(self, item):
@@ -51,6 +63,7 @@ class Engine:
     wall = {"quick": 300, "thorough": 900}
     selftest_n = {"quick": 12, "thorough": 48}
     chunk = 20
+    isolate = True      # a run must not see caches an earlier run of the same worker filled
     minimise_budget = {"quick": 200, "thorough": 1000}
     rule = ("one run = one seeded batch of 1-8 hosts of one vendor; each host's world state (old, new) is a shipped corpus pair "
             "(forward or reversed), a cross product of two samples of the vendor, or a seeded mutation (rows dropped / grafted "
@@ -126,8 +139,13 @@ class Engine:
         from annet.annlib.diff import gen_pre_as_diff
         api, P = self.api, self.P
         vendor = self.vendors[ch.draw(len(self.vendors), "vendor")]
-        hw = env.hw_stub(vendor)
+        from annet.annlib.netdev.views.hardware import HardwareView
+        models = MODELS.get(vendor) or [env.HW_STUB[vendor]]
+        hw = HardwareView(models[ch.draw(len(models), "model")], None)
+        if hw.vendor != env.hw_stub(vendor).vendor:
+            raise HarnessError("model %r resolved to vendor %r" % (hw.model, hw.vendor))
         fmt = env.formatter(hw, "  ")
+        self._hw_model = hw.model
         nhosts = ch.weighted([(2, 1), (3, 2), (3, 3), (2, 4), (1, 6), (1, 8)], "nhosts")
         run_dir = tempfile.mkdtemp(prefix="annetsim-files-", dir=self.base)
         faults, probes = {}, {}
@@ -278,7 +296,8 @@ class Engine:
         return {"violation": violation, "nontrivial": probes.get("nonempty_patch_compared", 0) > 0,
                 "sig": int.from_bytes(h.digest()[:8], "big"), "sim_s": sum(s.now for s in sims), "steps": sum(s.steps for s in sims),
                 "faults": faults, "probes": probes, "strategy": vendor,
-                "scenario": {"vendor": vendor, "hosts": [(x["host"], x["state"]) for x in hosts]}, "trace": trace}
+                "scenario": {"vendor": vendor, "hw": self._hw_model, "hosts": [(x["host"], x["state"]) for x in hosts]},
+                "trace": trace}
 
 
 def V(clause, key, **detail):
